@@ -584,7 +584,9 @@ func nestedCleanRun(res *core.Result, r *rand.Rand, kind int) {
 	cfg, routerIP, desc := realConfig(r, kind)
 	limitOf := func(pfx netip.Prefix) int {
 		for _, rp := range cfg.RoutablePrefixes {
-			if rp.BasePrefix.Contains(pfx.Addr()) {
+			// the configuration whose routing prefixes have this length (a nested base prefix may start at the same
+			// address as the region prefix around it: the base address alone does not tell them apart)
+			if rp.RoutingBits == pfx.Bits() && rp.BasePrefix.Contains(pfx.Addr()) {
 				return rp.EntriesPerPrefix
 			}
 		}
@@ -604,6 +606,27 @@ func nestedCleanRun(res *core.Result, r *rand.Rand, kind int) {
 	}
 	for i := 0; i < 400; i++ {
 		dests = append(dests, randAddrIn(r, region))
+	}
+	// ... and well over the limit on BOTH sides of every base prefix nested in the region (wherever in the region it
+	// lies): addresses right below its first and right above its last address
+	for _, rp := range cfg.RoutablePrefixes {
+		if !region.Contains(rp.BasePrefix.Addr()) || rp.BasePrefix.Bits() <= region.Bits() {
+			continue
+		}
+		below, above := 0, 0
+		for try := 0; try < 4000 && (below < 90 || above < 90); try++ {
+			a := randAddrIn(r, region)
+			if rp.BasePrefix.Contains(a) {
+				continue
+			}
+			if a.Less(rp.BasePrefix.Addr()) && below < 90 {
+				dests = append(dests, a)
+				below++
+			} else if !a.Less(rp.BasePrefix.Addr()) && above < 90 {
+				dests = append(dests, a)
+				above++
+			}
+		}
 	}
 	r.Shuffle(len(dests), func(i, j int) { dests[i], dests[j] = dests[j], dests[i] })
 	for i, d := range dests {
@@ -631,7 +654,9 @@ func largeRun(res *core.Result, r *rand.Rand, kind int, nops int) {
 	cfg, routerIP, desc := realConfig(r, kind)
 	limitOf := func(pfx netip.Prefix) int {
 		for _, rp := range cfg.RoutablePrefixes {
-			if rp.BasePrefix.Contains(pfx.Addr()) {
+			// the configuration whose routing prefixes have this length (a nested base prefix may start at the same
+			// address as the region prefix around it: the base address alone does not tell them apart)
+			if rp.RoutingBits == pfx.Bits() && rp.BasePrefix.Contains(pfx.Addr()) {
 				return rp.EntriesPerPrefix
 			}
 		}
